@@ -51,4 +51,10 @@ CHECKS = {
   "text": "Generated search (about 2000 cases quick, 1.2e5 thorough). Exploration level; the size class that triggers the former 1000-batch truncation is generated deliberately.",
   "note": "Trusted: numpy indexing/concatenation as reference. Domain: n>=1 and at least one array leaf; tf.data-backed lazy path fed with dict-only inputs as the library does.",
  },
+ "C16": {
+  "engine": "hypothesis-stateful",
+  "technique": "model-based stateful property testing: Hypothesis-generated operation histories (setup in configuration order, then set / bulk load / refresh / coordinate switch / standardise / fix / mask / BFGS step) interpreted against a fresh VarsManager with relational before/after oracles and a tie/fixed-set model; separate generated check of Bound (inverse pair, slope vs sympy derivative and finite differences)",
+  "text": "About 1900 histories (<=25 steps) per quick run, 5e4 thorough; every step is followed by the structural invariants. Exploration level over histories.",
+  "note": "Trusted: the harness's own bookkeeping of tie classes and fixed sets. Outside asserted domain (counted): switch to Cartesian for variables that only share a radius or have exactly one fixed component. Histories are op-lists (replayable JSON) rather than Hypothesis RuleBasedStateMachine objects.",
+ },
 }
